@@ -20,6 +20,49 @@ from ..engines import pattern, owner
 from ..engines.linform import canon
 
 
+def _unalias_fields(fn, name='superdict'):
+    """a copy of ``fn`` in which locals that are merely the values of the literal dictionary ``name`` (``states = {}`` ...
+    ``superdict = {'states': states, ...}``) are written as ``superdict['states']``: the rules below speak about the fields."""
+    import copy
+    from ..model import attach_parents
+    lit = None
+    for n in walk_local(fn):
+        if isinstance(n, ast.Assign) and unparse(n.targets[0]) == name and isinstance(n.value, ast.Dict):
+            lit = n
+    if lit is None:
+        return fn
+    alias = {}
+    for k, v in zip(lit.value.keys, lit.value.values):
+        if isinstance(k, ast.Constant) and isinstance(v, ast.Name):
+            defs = []
+            for a in walk_local(fn):
+                if isinstance(a, ast.Assign):
+                    for t in a.targets:
+                        tt = t.elts if isinstance(t, ast.Tuple) else [t]
+                        vv = a.value.elts if isinstance(t, ast.Tuple) and isinstance(a.value, ast.Tuple) and len(a.value.elts) == len(tt) else [a.value] * len(tt)
+                        for x, y in zip(tt, vv):
+                            if isinstance(x, ast.Name) and x.id == v.id:
+                                defs.append(y)
+            if len(defs) == 1 and isinstance(defs[0], ast.Dict) and not defs[0].keys:
+                alias[v.id] = k.value
+    if not alias:
+        return fn
+    new = copy.deepcopy(fn)
+
+    class R(ast.NodeTransformer):
+        def visit_Name(self, n):
+            if n.id in alias and isinstance(n.ctx, ast.Load):
+                return ast.copy_location(ast.Subscript(value=ast.Name(id=name, ctx=ast.Load()), slice=ast.Constant(value=alias[n.id]), ctx=ast.Load()), n)
+            return n
+    for st in new.body:
+        if isinstance(st, ast.Assign) and unparse(st.targets[0]) == name and isinstance(st.value, ast.Dict):
+            continue
+        R().visit(st)
+    ast.fix_missing_locations(new)
+    attach_parents(new)
+    return new
+
+
 def run(model, rep, tier):
     rep.explanation = __doc__.strip()
     from ._common import caches_for
@@ -34,6 +77,7 @@ def run(model, rep, tier):
     mod = model.mod('OnsagerCalc')
     fi = model.func('OnsagerCalc', 'Interstitial.makesupercells')
     fv = model.func('OnsagerCalc', 'VacancyMediated.makesupercells')
+    fi, fv = _unalias_fields(fi), _unalias_fields(fv)
     npair = 0
     for q, fn in (('Interstitial', fi), ('VacancyMediated', fv)):
         for lp in [n for n in walk_local(fn) if isinstance(n, ast.For) and isinstance(n.iter, ast.Call) and dotted(n.iter.func) == 'zip'
@@ -55,7 +99,8 @@ def run(model, rep, tier):
                 pairs = list(zip(n.targets[0].elts, n.value.elts)) if isinstance(n.targets[0], ast.Tuple) and isinstance(n.value, ast.Tuple) \
                     else [(n.targets[0], n.value)]
                 for t, v in pairs:
-                    if isinstance(t, ast.Name) and t.id.startswith('ind'):
+                    # located by content, not by name: any value computed from a supercell's inverse matrix is a placement index
+                    if isinstance(t, ast.Name) and 'invsuper' in unparse(v):
                         b = pattern.find(v, 'np.dot(_N_s.invsuper, _E_u) / _N_t.size', 'expr')
                         ok = bool(b) and b[0]['_node'] is v
                         rep.ob('placement', mod, n, '%s.makesupercells: %s = %s' % (q, t.id, unparse(v)), ok,
@@ -98,19 +143,18 @@ def run(model, rep, tier):
            '' if ok else 'only a subset of the kinetic states is tested (e.g. one representative per star): a cell too small in one '
                          'direction is not detected when the representative happens to fit', engine='flow', qual='VacancyMediated.makesupercells')
     ps = unparse(lp.target)
-    tests = [n for n in lp.body if isinstance(n, ast.If)]
+    # the conditions holding at the warn call (nested if, or guards with continue): exactly "dx differs from its half-cell image"
+    from ._common import conditions_at, resolve_local
+    warn = [c for c in ast.walk(lp) if isinstance(c, ast.Call) and unparse(c.func) == 'warnings.warn']
+    conds = conditions_at(fv, warn[0])
     ok = False
-    if len(tests) == 1:
-        t = tests[0]
-        okt = bool(pattern.find(t.test, 'not np.allclose(_N_p.dx, _N_m, atol=self.threshold)', 'expr', _N_p=ps))
-        # every path through the body reaches the warn call: the warn is a direct statement of the if-body (not nested in a branch)
-        direct = any(isinstance(s, ast.Expr) and isinstance(s.value, ast.Call) and unparse(s.value.func) == 'warnings.warn' for s in t.body)
-        widx = [i for i, s_ in enumerate(t.body) if isinstance(s_, ast.Expr) and isinstance(s_.value, ast.Call)
-                and unparse(s_.value.func) == 'warnings.warn']
-        escapes = any(isinstance(x, (ast.Continue, ast.Break, ast.Return, ast.Raise)) for s_ in t.body[:widx[0]] for x in ast.walk(s_)) if widx else True
-        ok = okt and direct and not t.orelse and not escapes
-        m = pattern.find(lp, '_N_m = np.dot(_E_L, crystal.inhalf(np.dot(_E_inv, _N_p.dx)))', _N_p=ps)
-        ok = ok and bool(m)
+    if len(conds) == 1:
+        t = ast.parse(sorted(conds)[0], mode='eval').body
+        b = pattern.find(t, 'not np.allclose(_N_p.dx, _N_m, atol=self.threshold)', 'expr', _N_p=ps)
+        if b and b[0]['_node'] is t:
+            m = resolve_local(fv, ast.parse(b[0]['_N_m'], mode='eval').body)
+            ok = bool(pattern.find(m, 'np.dot(_E_L, crystal.inhalf(np.dot(_E_inv, _N_p.dx)))', 'expr', _N_p=ps)) and \
+                pattern.find(m, 'np.dot(_E_L, crystal.inhalf(np.dot(_E_inv, _N_p.dx)))', 'expr', _N_p=ps)[0]['_node'] is m
     rep.ob('small-cell-warning', mod, lp, 'a state whose dx differs from its half-cell image always reaches warnings.warn', ok,
            '' if ok else 'some failing state is skipped without a warning', engine='flow', qual='VacancyMediated.makesupercells')
     # ---- mapping search
